@@ -27,7 +27,7 @@ import os, sys, re, json, subprocess, tempfile, time, shutil
 from concurrent.futures import ThreadPoolExecutor
 
 GO = 'go1.26.8'
-PROBES = ['flood-after-disconnect', 'stop-during-connect', 'stop-vs-late-connect', 'stop-vs-inflight-accept', 'once-deadlock', 'same-id-storm', 'slow-subscriber', 'overlap-lock-cycle', 'stop-waits-teardown']
+PROBES = ['flood-after-disconnect', 'stop-during-connect', 'stop-vs-late-connect', 'stop-vs-inflight-accept', 'once-deadlock', 'same-id-storm', 'slow-subscriber', 'overlap-lock-cycle', 'stop-waits-teardown', 'terminate-vs-reconnect']
 
 
 def goenv(cgo):
@@ -278,6 +278,46 @@ def static(ROOT, REPO, tier):
     cov.update({'stress_runs': len(results), 'stress_requests': total_req, 'stress_max_latency_ms': maxlat,
                 'stress_results': summary, 'stress_known_findings_reported': sorted(seen), 'notes_static': notes})
     return {'violations': violations, 'obligations': 0, 'discharged': 0, 'coverage': cov}
+
+
+def probes_only(pid, names):
+    """static callable for another property (C05): build the stress harness and run the named schedule probes only;
+    a failing probe is a violation of `pid` with the probe's report as replay (replayed with bin/static_c15.py --replay)"""
+    def run(ROOT, REPO, tier):
+        notes, violations, cov = [], [], {}
+        seed = int(os.environ.get('VERIF_SEED', '1') or '1')
+        exe, race, err = build_stress(ROOT, notes)
+        cov['stress_race_detector'] = race
+        if exe is None:
+            rp = os.path.join(ROOT, 'replays', '%s-stress-build.txt' % pid)
+            os.makedirs(os.path.dirname(rp), exist_ok=True)
+            open(rp, 'w').write('the stress harness does not build against /repo:\n' + err)
+            violations.append(('correspondence', rp, ' no-failing-input-found'))
+            return {'violations': violations, 'obligations': 0, 'discharged': 0, 'coverage': dict(cov, notes_static=notes)}
+        reps = 1 if tier == 'quick' else 5
+        runs = [('%s-probe-%s-%d' % (pid, n, seed + i), ['-seed', str(seed + i), '-probe', n, '-seconds', '6' if tier == 'quick' else '30'])
+                for n in names for i in range(reps)]
+        with ThreadPoolExecutor(max_workers=2) as ex:
+            results = list(ex.map(lambda r: run_one(exe, r[1], ROOT, r[0]), runs))
+        summary = []
+        for res in results:
+            d = parse_line(res['line'])
+            summary.append({'run': res['name'], 'wall_s': res['wall_s'], 'result': res['line'][:400]})
+            if d['ok']:
+                continue
+            rp = os.path.join(ROOT, 'replays', '%s.txt' % res['name'])
+            with open(rp, 'w') as f:
+                f.write('; property %s fails on the implementation under this schedule: %s\n' % (pid, res['line']))
+                f.write('; replay: python3 bin/static_c15.py --replay %s\n' % rp)
+                f.write('args: %s\n' % ' '.join(res['args']))
+                try:
+                    f.write('--- captured report ---\n' + open(res['report']).read()[-60000:])
+                except OSError:
+                    pass
+            violations.append(('oracle', rp, ''))
+        cov.update({'schedule_probes': summary, 'notes_static': notes})
+        return {'violations': violations, 'obligations': 0, 'discharged': 0, 'coverage': cov}
+    return run
 
 
 def replay(path):
